@@ -300,22 +300,18 @@ Definition store_down (s : shut_case) : bool :=
   match sc_shutdown s with SCad => true | SCloseLast => negb (sc_mem s) | _ => false end.
 Definition is_timer (s : shut_case) : bool := match sc_racer s with RTimer => true | _ => false end.
 
-(* the two windows of KNOWN_FINDINGS.json: the timer callback entered before the store shut down runs
-   doExpiration on a closed database (panic); the timer callback inside expireDocuments holds
-   expiryManager.mutex and needs bucket.mutex while CloseAndDelete holds bucket.mutex and waits for
-   expiryManager.mutex (the cycle of timer_vs_delete_deadlocks) *)
+(* Three windows used to produce something else than `ok` (KNOWN_FINDINGS.json, now `fixed`): the timer callback
+   entered before the store shut down ran doExpiration on a closed database and panicked (fix 116c2a3); the
+   timer callback inside expireDocuments held expiryManager.mutex and needed bucket.mutex while CloseAndDelete
+   held bucket.mutex and waited for expiryManager.mutex - the cycle of timer_vs_delete_deadlocks (fix 2f1f33b,
+   protocol proved free of deadlock in LockStop.v); a StartDCPFeed parked before its registration registered
+   after CloseAndDelete had shut the store down, leaving a feed nothing would stop (fix fcaf2af).
+   Every scenario is now expected to end well. *)
 Definition point_is (s : shut_case) (p : string) : bool := String.eqb (sc_point s) p.
 Definition is_feedstart (s : shut_case) : bool := match sc_racer s with RFeedStart => true | _ => false end.
 Definition is_cad (s : shut_case) : bool := match sc_shutdown s with SCad => true | _ => false end.
 
-(* the outcomes the code is known to produce in the windows of KNOWN_FINDINGS.json (elsewhere: ok) *)
-Definition expected_outcomes (s : shut_case) : list outcome :=
-  if is_timer s && point_is s "expiry.fire" && store_down s then [OPanic]                    (* KF-C20-panic *)
-  else if is_timer s && is_cad s && (point_is s "expiry.window" || point_is s "cas.beforePost") then [ODeadlock]   (* KF-C20-deadlock *)
-  else if is_timer s && is_cad s && negb (point_is s "expiry.fire") then [OOk; ODeadlock]    (* same cycle, depends on who gets bucket.mutex *)
-  else if is_feedstart s && is_cad s then [OLeak]                                            (* KF-C20-feedstart; after the last Close of an
-                                                                                                on-disk bucket the starting handle is closed and the start fails (fix 000b6e1) *)
-  else [OOk].
+Definition expected_outcomes (s : shut_case) : list outcome := [OOk].
 
 Definition shut_corr_ok (t : shut_case * outcome) : bool := existsb (outcome_eqb (snd t)) (expected_outcomes (fst t)).
 Definition shut_chk_strict (t : shut_case * outcome) : bool := outcome_eqb (snd t) OOk.
